@@ -36,25 +36,26 @@ type Cell struct {
 
 // Obs is what the child observed for one cell.
 type Obs struct {
-	ID           string
-	ErrNil       bool
-	ErrHasMsg    bool
-	ErrText      string
-	RowsOK       bool // only meaningful if ErrNil
-	RowsDiff     string
-	Reached      int64
-	Fired        int64
-	Locs         map[string]int
-	HealthyOK    bool
-	HealthyErr   string
-	Hang         string // "" | "run" | "repeat-run" | "later-run"
-	GateWaits    int32  // forced interleaving: waits at a gate in the first run ...
-	GateTimeouts int32  // ... and how many of them timed out (the interleaving was then not forced)
-	Repeats      int    // how often the failing Func was run again before the healthy one
-	RepeatBad    string // a repeat of the failing Func that broke the oracle of the first run
-	Unbounded    bool   // the cell was abandoned because the failure had been delivered more than fireBound times
-	Ms           int64
-	Stacks       string // goroutine dump when hung
+	ID              string
+	ErrNil          bool
+	ErrHasMsg       bool
+	ErrText         string
+	RowsOK          bool // only meaningful if ErrNil
+	RowsDiff        string
+	Reached         int64
+	Fired           int64
+	Locs            map[string]int
+	HealthyOK       bool
+	HealthyErr      string
+	Hang            string // "" | "run" | "repeat-run" | "later-run"
+	GateWaits       int32  // forced interleaving: waits at a gate in the first run ...
+	GateTimeouts    int32  // ... and how many of them timed out (the interleaving was then not forced)
+	Repeats         int    // how often the failing Func was run again before the healthy one
+	RepeatTransient string // a repeat of a transient (temporary, once/twice) cell failed although the first run succeeded
+	RepeatBad       string // a repeat of the failing Func that broke the oracle of the first run
+	Unbounded       bool   // the cell was abandoned because the failure had been delivered more than fireBound times
+	Ms              int64
+	Stacks          string // goroutine dump when hung
 }
 
 type line struct {
@@ -330,7 +331,7 @@ func runCell(c *Cell, emit func(line)) {
 		case r.err == nil && r.diff != "":
 			o.RepeatBad = fmt.Sprintf("repeat %d of the failing Func returned nil with wrong rows: %s", i+1, r.diff)
 		case r.err != nil && s.Pers != "always" && o.ErrNil && transient(s.Mode):
-			o.RepeatBad = fmt.Sprintf("repeat %d of the Func failed although its temporary failure goes away on retry (as in the first run, which succeeded): %s", i+1, trim(r.err.Error(), 300))
+			o.RepeatTransient = fmt.Sprintf("run %d of the same Func in the session failed although its temporary failure goes away on retry (the first run succeeded): %s", i+2, trim(r.err.Error(), 300))
 		case r.err == nil && s.Pers == "always" && !o.ErrNil:
 			o.RepeatBad = fmt.Sprintf("repeat %d of the persistently failing Func returned nil", i+1)
 		}
